@@ -15,7 +15,8 @@ PROPS = {
         "assumptions": ["slideWindow is only used through initialize/Write (checked: factgen digests + suite uses the real type via hook)"],
     },
     "C18": {
-        "theorems": ["Mask.maskXOR_eq", "Mask.maskXOR_getElem", "Mask.maskXOR_length", "Mask.maskXOR_involutive", "Mask.Key.get_eq"],
+        "modules": ["Gws.Props.C18", "Gws.Props.SourceShapeMask"],
+    "theorems": ["SourceShape.mask_bounds_checked", "Mask.maskXOR_eq", "Mask.maskXOR_getElem", "Mask.maskXOR_length", "Mask.maskXOR_involutive", "Mask.Key.get_eq"],
         "suites": ["mask"],
         "trusted": ["binary.LittleEndian Uint32/Uint64/PutUint64 as modelled by le32/le64/byteOf",
                     "'touches nothing outside the buffer' is not expressible on an immutable list: covered by maskXOR_length, Facts.maskNoUnsafe (Go bounds checks) and guard bytes at all 8 offsets in the tie"],
@@ -40,7 +41,8 @@ PROPS["C16"] = {
 }
 
 PROPS["C15"] = {
-    "theorems": ["TQ.getJob_cases", "TQ.inv_init", "TQ.inv_step", "TQ.inv_run", "TQ.fifo_exactly_once", "TQ.bounded_concurrency",
+    "modules": ["Gws.Props.C15", "Gws.Props.SourceShapeQueue"],
+    "theorems": ["SourceShape.taskqueue_sections", "TQ.getJob_cases", "TQ.inv_init", "TQ.inv_step", "TQ.inv_run", "TQ.fifo_exactly_once", "TQ.bounded_concurrency",
                  "TQ.one_at_a_time", "TQ.no_stranded_task", "TQ.drain_spec", "TQ.drains"],
     "suites": ["taskq"],
     "trusted": ["a sync.Mutex critical section is atomic w.r.t. other sections of the same mutex (Facts.getJobLocks: getJob is one Lock/defer Unlock region)",
@@ -50,7 +52,8 @@ PROPS["C15"] = {
     "assumptions": ["submission order = order of the Push critical sections (program order per goroutine)"],
 }
 PROPS["C19"] = {
-    "theorems": ["CMap.toBinaryNumber_pow2", "CMap.and_mask_eq_mod", "CMap.shard_index_in_range", "CMap.wf_invariant", "CMap.size_is_card",
+    "modules": ["Gws.Props.C19", "Gws.Props.SourceShapeMap"],
+    "theorems": ["SourceShape.map_sections", "CMap.toBinaryNumber_pow2", "CMap.and_mask_eq_mod", "CMap.shard_index_in_range", "CMap.wf_invariant", "CMap.size_is_card",
                  "CMap.load_refines", "CMap.store_refines", "CMap.delete_refines", "CMap.linearizable_single_section", "CMap.len_bounds",
                  "CMap.range_visits", "CMap.range_visits_all", "SMap.smap_refines", "SMap.smap_len_exact", "SMap.smap_range_visits", "SMap.smap_linearizable"],
     "suites": ["cmap", "cmapconc"],
@@ -80,8 +83,8 @@ PROPS["C13"] = {
     "trusted": READ_TRUSTED + ["the real limited reader stops inflating once the limit is exceeded; the model inflates fully and compares (same verdict; the amount inflated before stopping is not modelled)"],
 }
 PROPS["C06"] = {
-    "modules": ["Gws.Props.C06", "Gws.Props.C06Conc"],
-    "theorems": ["Close.closeReply_spec", "Close.closeReply_table", "Close.closeReply_bad_reason", "Close.local_close_frame", "Close.local_close_length",
+    "modules": ["Gws.Props.SourceShapeConn", "Gws.Props.C06", "Gws.Props.C06Conc"],
+    "theorems": ["SourceShape.conn_sections", "Close.closeReply_spec", "Close.closeReply_table", "Close.closeReply_bad_reason", "Close.local_close_frame", "Close.local_close_length",
                  "Conc.at_most_one_close_frame", "Conc.close_frame_by_winner", "Conc.nothing_after_close_frame", "Conc.close_frame_implies_closed",
                  "Conc.closed_is_monotone", "Conc.closed_iff_winner", "Conc.lock_mutual_exclusion", "Conc.writes_after_close_rejected", "Conc.local_close_wins_or_closed"],
     "suites": ["read", "conn"],
@@ -124,7 +127,7 @@ PROPS["C02"] = {
     "theorems": ["Session.windows_in_sync", "Session.inSync_step", "Session.hist_is_compressed_payloads", "Session.send_dict_suffix",
                  "Spec.Inflate.bounded_window_suffices", "Spec.Inflate.history_prefix_irrelevant", "Spec.Inflate.history_extension_harmless",
                  "Spec.Inflate.window_determines_output", "Spec.Inflate.bounded_window_iff"],
-    "suites": ["sess", "win"],
+    "suites": ["sess:1", "sess:0", "win"],
     "trusted": ["klauspost/compress/flate: the compressor emits RFC 1951 whose back-references stay within its window and dictionary (Codec law L2), the inflater implements RFC 1951 (L3) - SAMPLED, not proved: every compressed frame in the read/sess/write suites goes through the real library and (read, write) through the Lean inflater",
                 "which frames are compressed and which window update follows which write: Session model, tied by the sess suite (all four windows read back through the accessor hook at quiescence)"],
     "clauses_without_theorem": ["the DEFLATE library's own conformance (L2/L3): sampled by the suites, not proved"],
@@ -143,7 +146,8 @@ PROPS["C05"] = {
                 "binary.BigEndian / LittleEndian as modelled"],
 }
 PROPS["C07"] = {
-    "theorems": ["Conc.callback_shape", "Conc.open_close_at_most_once", "Conc.reader_done_closed_once", "Conc.messages_in_wire_order"],
+    "modules": ["Gws.Props.C07", "Gws.Props.SourceShapeConn"],
+    "theorems": ["SourceShape.conn_sections", "Conc.callback_shape", "Conc.open_close_at_most_once", "Conc.reader_done_closed_once", "Conc.messages_in_wire_order"],
     "suites": ["conn", "read", "faults:session", "racy:parallel-handlers"],
     "trusted": CONC_TRUSTED + ["the order and payloads of the callbacks between open and close are those of the read-path model (C03)",
                                "parallel handling (channel semaphore) and recover() semantics are NOT in the transition system: bounded parallelism and panic absorption are observed by the suites only"],
@@ -151,20 +155,48 @@ PROPS["C07"] = {
                                 "a panic in a handler is absorbed by the recovery function without losing later messages (observed; Facts.dispatchDefersRecovery)"],
 }
 PROPS["C08"] = {
-    "theorems": ["Conc.wire_is_whole_frames", "Conc.partial_only_by_failed_write", "Conc.file_frames_contiguous", "Conc.data_frames_owned_by_writers",
+    "modules": ["Gws.Props.C08", "Gws.Props.SourceShapeConn"],
+    "theorems": ["SourceShape.conn_sections", "Conc.wire_is_whole_frames", "Conc.partial_only_by_failed_write", "Conc.file_frames_contiguous", "Conc.data_frames_owned_by_writers",
                  "Conc.success_iff_one_message", "Conc.content_rejected_no_bytes"],
     "suites": ["conn", "racy"],
     "trusted": CONC_TRUSTED + ["'free of data races' is a statement about the Go memory model that no functional model expresses: validated by the race detector on the racy suite (not part of the proof)"],
     "clauses_without_theorem": ["library-internal shared state touched by writers is free of data races (race detector on concurrent scenarios: validation only)"],
 }
 PROPS["C09"] = {
-    "theorems": ["Conc.transport_closed_implies_closed", "Conc.onclose_once_nonnil", "Conc.no_deadlock", "Conc.bounded_run", "Conc.acts_are_bounded",
+    "modules": ["Gws.Props.C09", "Gws.Props.SourceShapeConn"],
+    "theorems": ["SourceShape.conn_sections", "Conc.transport_closed_implies_closed", "Conc.onclose_once_nonnil", "Conc.no_deadlock", "Conc.bounded_run", "Conc.acts_are_bounded",
                  "Conc.teardown_complete", "Conc.closer_blocked_behind_stalled_writer"],
     "suites": ["conn", "faults"],
     "trusted": CONC_TRUSTED + ["handshake fault paths, goroutine census, wall-clock bounds and real socket behaviour are runtime: observed by the faults suite (fault injected at every transport operation of a scripted session and of both handshakes), not proved"],
     "clauses_without_theorem": ["handshake functions return an error and close the transport on any fault (observed by fault enumeration)",
                                 "no goroutine left behind (observed: goroutine census after every fault case)",
                                 "a locally requested close completes in bounded time while another writer is stalled: FALSE of gws (known finding KF-C09-stall-close; model witness closer_blocked_behind_stalled_writer)"],
+}
+
+PROPS["C01"] = {
+    "theorems": ["C01.frame_delivered", "C01.frame_delivered_compressed", "C01.control_delivered", "C01.file_delivered", "C01.sequence_fidelity",
+                 "C01.sequence_fidelity_stream", "C01.sequence_fidelity_compressed", "C01.sequence_fidelity_negotiated", "C01.async_fifo", "C01.async_delivery_order"],
+    "suites": ["sess", "write"],
+    "trusted": ["DEFLATE library laws as explicit hypotheses of the compressed theorems: RoundTrip (compress then inflate with the same dictionary is the identity), MinOut (output >= 4 bytes), DictFree for compressed broadcasts - klauspost conformance, sampled on every compressed message of the sess/write suites",
+                "transport delivers the written bytes in order (memConn in the suites; TCP in production)",
+                "the models of the write path (C05), read path (C03), window (C17), masking (C18) and queue (C15) it composes, each tied by its own suite"],
+    "clauses_without_theorem": ["parallel handling: each message handled exactly once (multiset) - observed (racy parallel-handlers)",
+                                "program order of one goroutine's WriteAsync calls = order of their Push critical sections (Go semantics)",
+                                "KNOWN FINDING KF-C01-compressed-at-limit: incompressible payload at the limit refused under compression"],
+}
+
+PROPS["C14"] = {
+    "theorems": ["Own.path_well_owned_readSingle", "Own.path_well_owned_readFragments", "Own.path_well_owned_readControl", "Own.path_well_owned_writeFrame",
+                 "Own.path_well_owned_writeClose", "Own.path_well_owned_writeFilePlain", "Own.path_well_owned_writeFileCompressed", "Own.path_well_owned_connection",
+                 "Own.path_well_owned_readLoopEnd_busy", "Own.wellOwned_leaves_nothing", "Own.interleave_well_owned", "Own.interleaveN_well_owned",
+                 "Own.interleave_shared_mutex_well_owned", "Own.delivered_untouched_until_close", "Own.caller_payload_never_written",
+                 "Own.caller_payload_unread_after_return", "Own.broadcaster_release_once", "Own.broadcaster_well_owned", "Own.reclaim_only_when_idle"],
+    "suites": ["own", "racy"],
+    "trusted": ["the ownership protocol is a hand-written event model of each library path; it is tied to the code by the get/put traces the pool hook records for each scenario run alone (renamed by first occurrence) and by pool poisoning / double-put detection / caller-payload checksums on real connections",
+                "sync.Pool hands a buffer to one taker at a time; a mutex-guarded location is used by its holder only",
+                "real aliasing, GC and the Go memory model are runtime: observed (poisoning, race detector), not proved"],
+    "clauses_without_theorem": ["memory is not shared (aliasing): observed by poisoning released buffers and by the race detector",
+                                "Broadcast after Close is API misuse and can release the shared frames twice (witness broadcaster_misuse_double_release)"],
 }
 
 # ---- relevance: does an implementation/model difference contradict THIS property's clauses? ---------------
